@@ -398,8 +398,11 @@ def main():
             _verif.reset()
             start = len(_verif.TRACE)
             ended = "normally"
+            async def guarded(f=f):
+                with anyio.fail_after(30):        # a program that hangs (because of the code under test) ends here; what it did so far is judged
+                    await f()
             try:
-                anyio.run(f, backend=backend)
+                anyio.run(guarded, backend=backend)
             except BaseException as e:  # noqa: BLE001
                 ended = f"{type(e).__name__}: {e}"[:200]
                 print(f"scenario {f.__name__} ended with {ended}", file=sys.stderr)
